@@ -165,7 +165,11 @@ class Formatter(EntitySubstitution):
         :return: A string with certain characters replaced by named
            or numeric entities.
         """
-        return self.substitute(value)
+        if not self.entity_substitution:
+            return value
+        # An attribute value is never CDATA, even if the string
+        # object happens to live inside a <script> or <style> tag.
+        return self.entity_substitution(value)
 
     def attributes(
         self, tag: bs4.element.Tag
